@@ -465,6 +465,9 @@ func (ex *Exec) step(st *State, fr *Frame, in ssa.Instruction, work *[]*State) {
 		ex.doGo(st, fr, x)
 	case *ssa.Send:
 		ex.note("chan send in " + specName(fr.Fn))
+		if ci, cet := ex.chanInvOf(x.Chan); ci != nil {
+			ex.emit(st, "pre", ex.srcLabel(fr.Fn, x.Pos(), "chan-send"), ex.chanValueFact(st, fr, ci, ex.val(st, fr, x.X), cet), x.Pos(), nil)
+		}
 	case *ssa.Select:
 		ex.doSelect(st, fr, x)
 	case *ssa.If:
